@@ -238,8 +238,8 @@ Proof.
   - apply andb_true_iff. split.
     + destruct (lookup_last res last) as [[cls0 ob0]|] eqn:LL; [|reflexivity].
       apply lookup_last_In in LL. destruct (LO _ _ _ LL) as [Ec Hs].
-      destruct (nlist_eqb (sorted_classes (ref_rules f res)) cls0 && nodup_classes (sorted_classes (ref_rules f res))) eqn:C;
-        [|reflexivity].
+      match goal with |- (if ?c then _ else _) = true => destruct c eqn:C end; [|reflexivity].
+      apply andb_true_iff in C. destruct C as [C _]. apply andb_true_iff in C. destruct C as [C _].
       apply andb_true_iff in C. destruct C as [_ C]. apply Hs. rewrite Ec. exact C.
     + apply IH; auto.
       intros k cls0 ob0 [Hin|Hin].
